@@ -104,7 +104,7 @@ class MarkerTrack(Sized, BuildWriteable):
 
     @property
     def _segments(self):
-        maskedTrackData = np.ma.masked_invalid(self.data)
+        maskedTrackData = np.ma.masked_where(np.isnan(self.data), self.data)
         return np.ma.clump_unmasked(maskedTrackData.T[0])
 
     @staticmethod
